@@ -16,6 +16,7 @@ import (
 	"path/filepath"
 	"sort"
 	"strings"
+	"syscall"
 	"testing"
 	"time"
 
@@ -43,6 +44,9 @@ func c02Gen(t *rapid.T) qScenario {
 			m.Rcpts = append(m.Rcpts, fmt.Sprintf("r%d-%d@example.org", i, j))
 		}
 		m.Abort = rapid.IntRange(0, 5).Draw(t, "abort") == 0
+		if rapid.IntRange(0, 7).Draw(t, "fsync_fails") == 0 {
+			m.SyncFail = rapid.SampledFrom([]string{"header", "body"}).Draw(t, "fsync_of")
+		}
 		if i > 0 && rapid.Bool().Draw(t, "later") {
 			m.AcceptAfterMin = rapid.SampledFrom([]int{1, 15, 16}).Draw(t, "accept_after") // while a retry of an earlier message is pending / in flight
 		}
@@ -418,6 +422,19 @@ var c02Rec = ev.Get("C02")
 func c02Explore(c c02Case) (vs []ev.V) {
 	sc := c.Scenario
 	qSeq = vos.Seq
+	qBeforeBody = func(m qMsg) {
+		vos.FailSync = nil
+		if m.SyncFail != "" {
+			suffix := m.ID + "." + m.SyncFail
+			vos.FailSync = func(path string) error {
+				if strings.HasSuffix(path, suffix) {
+					return syscall.EIO
+				}
+				return nil
+			}
+		}
+	}
+	defer func() { vos.FailSync = nil }()
 	defer func() { qSeq = nil }()
 	vos.Reset(true)
 	h0 := qRun(sc, nil)
